@@ -411,6 +411,34 @@ theorem vstack_ok (nc : Nat) (m : Mat) (ms : List Mat) (h : ∀ m' ∈ m :: ms, 
   show Except.ok (Mat.transpose _) = _
   rw [key, ← List.map_cons, accFlat_transpose, sumMap_nc_transpose]
 
+theorem hstack_map_ok {α : Type} (nr : Nat) (f : α → Mat) (a : α) (l : List α)
+    (h : ∀ x ∈ a :: l, (f x).nr = nr) :
+    hstack ((a :: l).map f) = .ok ⟨nr, sumMap (fun x => (f x).nc) (a :: l),
+      accFlat (fun x => (f x).nc) (fun o x => (f x).tr.map (fun t => (t.1, o + t.2.1, t.2.2))) 0 (a :: l)⟩ := by
+  have h' : ∀ m' ∈ f a :: l.map f, m'.nr = nr := by
+    intro m' hm'
+    rw [← List.map_cons] at hm'
+    obtain ⟨x, hx, rfl⟩ := List.mem_map.mp hm'
+    exact h x hx
+  have := hstack_ok nr (f a) (l.map f) h'
+  rw [← List.map_cons, accFlat_map_list, sumMap_eq_sum, List.map_map] at this
+  rw [this, sumMap_eq_sum]
+  rfl
+
+theorem vstack_map_ok {α : Type} (nc : Nat) (f : α → Mat) (a : α) (l : List α)
+    (h : ∀ x ∈ a :: l, (f x).nc = nc) :
+    vstack ((a :: l).map f) = .ok ⟨sumMap (fun x => (f x).nr) (a :: l), nc,
+      accFlat (fun x => (f x).nr) (fun o x => (f x).tr.map (fun t => (o + t.1, t.2.1, t.2.2))) 0 (a :: l)⟩ := by
+  have h' : ∀ m' ∈ f a :: l.map f, m'.nc = nc := by
+    intro m' hm'
+    rw [← List.map_cons] at hm'
+    obtain ⟨x, hx, rfl⟩ := List.mem_map.mp hm'
+    exact h x hx
+  have := vstack_ok nc (f a) (l.map f) h'
+  rw [← List.map_cons, accFlat_map_list, sumMap_eq_sum, List.map_map] at this
+  rw [this, sumMap_eq_sum]
+  rfl
+
 /-! ### Kronecker product and placement of one local matrix -/
 
 theorem kronI_eq_flatMap (tr : List Trip) (dim : Nat) (hd : 0 < dim) :
@@ -477,5 +505,310 @@ theorem mapCols_range' (co n : Nat) (tr : List Trip) (h : ∀ t ∈ tr, t.2.1 < 
     unfold mapCols at this ⊢
     rw [List.filterMap_cons, List.getElem?_range' ht, this]
     simp
+
+/-! ### mortar projections -/
+
+theorem mixedCodim_false (c : Nat) (intfs : List Intf) (h : ∀ i ∈ intfs, i.codim = c) :
+    mixedCodim intfs = false := by
+  cases intfs with
+  | nil => rfl
+  | cons i0 rest =>
+    simp only [mixedCodim, List.any_eq_false]
+    intro j hj
+    have h0 := h i0 (by simp)
+    have hj' := h j (List.mem_cons_of_mem _ hj)
+    simp [h0, hj']
+
+theorem projsOf_eq (useFaces : Bool) (gs : List G) (dim : Nat) (hd : 0 < dim) (hwf : ∀ g ∈ gs, g.wf) :
+    projsOf useFaces gs dim = some (blocks 0 (gs.map (fun g => dim * sizeOf useFaces g))) := by
+  cases useFaces with
+  | true => simpa [projsOf, sizeOf] using faceProjs_eq gs dim hd hwf
+  | false => simpa [projsOf, sizeOf] using cellProjs_eq gs dim hd hwf
+
+/-- content of the block of one interface (from the mortar side): local triplets moved to the row
+    offset of the subdomain -/
+def rowPlaced (gs : List G) (size : G → Nat) (dim : Nat) (side : Option Nat) (i : Intf) : List Trip :=
+  match side with
+  | some p => (kronI i.mat dim).map (fun t => (dim * sumMap size (gs.take p) + t.1, t.2.1, t.2.2))
+  | none => []
+
+def colPlaced (gs : List G) (size : G → Nat) (dim : Nat) (side : Option Nat) (i : Intf) : List Trip :=
+  match side with
+  | some p => (kronI i.mat dim).map (fun t => (t.1, dim * sumMap size (gs.take p) + t.2.1, t.2.2))
+  | none => []
+
+theorem mortarBlock_from (gs : List G) (useFaces : Bool) (dim : Nat) (hd : 0 < dim) (side : Option Nat)
+    (i : Intf)
+    (hpos : ∀ p, side = some p → ∃ g, gs[p]? = some g ∧ ∀ t ∈ i.mat, t.1 < sizeOf useFaces g) :
+    mortarBlock dim (blocks 0 (gs.map (fun g => dim * sizeOf useFaces g)))
+        (sumMap (sizeOf useFaces) gs * dim) (dim * sumMap (sizeOf useFaces) gs) false side i =
+      ⟨dim * sumMap (sizeOf useFaces) gs, i.cells * dim, rowPlaced gs (sizeOf useFaces) dim side i⟩ := by
+  cases side with
+  | none => rfl
+  | some p =>
+    obtain ⟨g, hg, hlt⟩ := hpos p rfl
+    have hp : p < gs.length := by
+      by_contra hc
+      rw [List.getElem?_eq_none (by omega)] at hg
+      cases hg
+    have hgp : gs[p] = g := by
+      rw [List.getElem?_eq_getElem hp] at hg
+      exact Option.some.inj hg
+    simp only [mortarBlock, rowPlaced, Bool.false_eq_true, if_false]
+    rw [blocks_grid_getD gs (sizeOf useFaces) dim p hp, hgp,
+      mapRows_range' _ _ _ (kronI_row_lt i.mat dim _ hd hlt), Nat.mul_comm _ dim]
+
+theorem mortarBlock_to (gs : List G) (useFaces : Bool) (dim : Nat) (hd : 0 < dim) (side : Option Nat)
+    (i : Intf)
+    (hpos : ∀ p, side = some p → ∃ g, gs[p]? = some g ∧ ∀ t ∈ i.mat, t.2.1 < sizeOf useFaces g) :
+    mortarBlock dim (blocks 0 (gs.map (fun g => dim * sizeOf useFaces g)))
+        (sumMap (sizeOf useFaces) gs * dim) (dim * sumMap (sizeOf useFaces) gs) true side i =
+      ⟨i.cells * dim, dim * sumMap (sizeOf useFaces) gs, colPlaced gs (sizeOf useFaces) dim side i⟩ := by
+  cases side with
+  | none => rfl
+  | some p =>
+    obtain ⟨g, hg, hlt⟩ := hpos p rfl
+    have hp : p < gs.length := by
+      by_contra hc
+      rw [List.getElem?_eq_none (by omega)] at hg
+      cases hg
+    have hgp : gs[p] = g := by
+      rw [List.getElem?_eq_getElem hp] at hg
+      exact Option.some.inj hg
+    simp only [mortarBlock, colPlaced, if_true]
+    rw [blocks_grid_getD gs (sizeOf useFaces) dim p hp, hgp,
+      mapCols_range' _ _ _ (kronI_col_lt i.mat dim _ hd hlt), Nat.mul_comm (sumMap _ gs) dim]
+
+theorem sumMap_cells_mul (dim : Nat) (l : List Intf) :
+    sumMap (fun i : Intf => i.cells * dim) l = dim * sumMap Intf.cells l := by
+  rw [sumMap_eq_sum, sum_map_mul_right]
+
+/-- hstack of the from-mortar blocks: block `k` sits at column offset `dim * (cells of the earlier interfaces)` -/
+theorem hstack_from (gs : List G) (size : G → Nat) (dim : Nat) (side : Intf → Option Nat) (i0 : Intf)
+    (rest : List Intf) :
+    hstack ((i0 :: rest).map (fun i =>
+        (⟨dim * sumMap size gs, i.cells * dim, rowPlaced gs size dim (side i) i⟩ : Mat))) =
+      .ok ⟨dim * sumMap size gs, dim * sumMap Intf.cells (i0 :: rest),
+        (List.range (i0 :: rest).length).flatMap (fun k =>
+          match (i0 :: rest)[k]? with
+          | some i =>
+            (match side i with
+             | some p => (kronI i.mat dim).map (fun t =>
+                 (dim * sumMap size (gs.take p) + t.1,
+                  dim * sumMap Intf.cells ((i0 :: rest).take k) + t.2.1, t.2.2))
+             | none => [])
+          | none => [])⟩ := by
+  rw [hstack_map_ok (dim * sumMap size gs) _ i0 rest (fun _ _ => rfl), accFlat_eq]
+  congr 2
+  · exact sumMap_cells_mul dim (i0 :: rest)
+  · congr 1
+    funext k
+    cases (i0 :: rest)[k]? with
+    | none => rfl
+    | some i =>
+      simp only [rowPlaced, sumMap_cells_mul, Nat.zero_add]
+      cases side i with
+      | none => rfl
+      | some p => simp [List.map_map, Function.comp_def]
+
+theorem vstack_to (gs : List G) (size : G → Nat) (dim : Nat) (side : Intf → Option Nat) (i0 : Intf)
+    (rest : List Intf) :
+    vstack ((i0 :: rest).map (fun i =>
+        (⟨i.cells * dim, dim * sumMap size gs, colPlaced gs size dim (side i) i⟩ : Mat))) =
+      .ok ⟨dim * sumMap Intf.cells (i0 :: rest), dim * sumMap size gs,
+        (List.range (i0 :: rest).length).flatMap (fun k =>
+          match (i0 :: rest)[k]? with
+          | some i =>
+            (match side i with
+             | some p => (kronI i.mat dim).map (fun t =>
+                 (dim * sumMap Intf.cells ((i0 :: rest).take k) + t.1,
+                  dim * sumMap size (gs.take p) + t.2.1, t.2.2))
+             | none => [])
+          | none => [])⟩ := by
+  rw [vstack_map_ok (dim * sumMap size gs) _ i0 rest (fun _ _ => rfl), accFlat_eq]
+  congr 2
+  · exact sumMap_cells_mul dim (i0 :: rest)
+  · congr 1
+    funext k
+    cases (i0 :: rest)[k]? with
+    | none => rfl
+    | some i =>
+      simp only [colPlaced, sumMap_cells_mul, Nat.zero_add]
+      cases side i with
+      | none => rfl
+      | some p => simp [List.map_map, Function.comp_def]
+
+/-! ### boundary projection -/
+
+theorem filterMap_range'_getElem? (off n : Nat) (l : List Nat) (h : ∀ c ∈ l, c < n) :
+    l.filterMap (fun c => (List.range' off n)[c]?) = l.map (fun c => off + c) := by
+  induction l with
+  | nil => rfl
+  | cons c cs ih =>
+    have hc : c < n := h c (by simp)
+    rw [List.filterMap_cons, List.getElem?_range' hc, ih (fun x hx => h x (List.mem_cons_of_mem _ hx))]
+    simp
+
+theorem expandNd_lt (ind : List Nat) (dim n : Nat) (hd : 0 < dim) (h : ∀ b ∈ ind, b < n) :
+    ∀ c ∈ expandNd ind dim, c < dim * n := by
+  intro c hc
+  obtain ⟨b, hb, k, hk, rfl⟩ := (mem_expandNd ind dim c hd).mp hc
+  have := h b hb
+  calc dim * b + k < dim * b + dim := by omega
+    _ = dim * (b + 1) := by ring
+    _ ≤ dim * n := Nat.mul_le_mul_left _ (by omega)
+
+theorem expandNd_nodup (ind : List Nat) (dim n : Nat) (hd : 0 < dim) (hnd : ind.Nodup)
+    (h : ∀ b ∈ ind, b < n) : (expandNd ind dim).Nodup := by
+  have hsub : ind <+~ List.range' 0 n := by
+    apply List.subperm_of_subset hnd
+    intro b hb
+    rw [← List.range_eq_range']
+    exact List.mem_range.mpr (h b hb)
+  have := subperm_flatMap (fun i => (List.range dim).map (fun k => dim * i + k)) hsub
+  rw [← expandNd_eq_flatMap _ _ hd, ← expandNd_eq_flatMap _ _ hd, expandNd_range' _ _ _ hd] at this
+  exact nodup_of_subperm this (List.nodup_range' (step := 1))
+
+/-- per-grid piece of the boundary index map, at face-dof offset `o` -/
+def bPiece (dim : Nat) (o : Nat) (g : G) : List Nat :=
+  if 0 < g.gdim then (expandNd g.bfaces dim).map (fun c => o + c) else []
+
+theorem boundaryIdxAux_eq (dim : Nat) (hd : 0 < dim) (gs : List G) (off : Nat)
+    (hb : ∀ g ∈ gs, ∀ b ∈ g.bfaces, b < g.faces) :
+    boundaryIdxAux dim (blocks off (gs.map (fun g => dim * g.faces))) gs =
+      accFlat (fun g => dim * g.faces) (bPiece dim) off gs := by
+  induction gs generalizing off with
+  | nil => rfl
+  | cons g gs ih =>
+    simp only [List.map_cons, blocks, boundaryIdxAux, accFlat]
+    rw [ih _ (fun g' hg' => hb g' (List.mem_cons_of_mem _ hg'))]
+    congr 1
+    unfold boundaryIdxOf bPiece
+    split
+    · exact filterMap_range'_getElem? _ _ _ (expandNd_lt _ _ _ hd (hb g (by simp)))
+    · rfl
+
+theorem bPiece_props (dim : Nat) (hd : 0 < dim) (o : Nat) (g : G) (hnd : g.bfaces.Nodup)
+    (hb : ∀ b ∈ g.bfaces, b < g.faces) :
+    (bPiece dim o g).Nodup ∧ ∀ x ∈ bPiece dim o g, o ≤ x ∧ x < o + dim * g.faces := by
+  unfold bPiece
+  split
+  · constructor
+    · exact (expandNd_nodup _ _ _ hd hnd hb).map (fun a b hab => by simpa using hab)
+    · intro x hx
+      obtain ⟨c, hc, rfl⟩ := List.mem_map.mp hx
+      have := expandNd_lt _ _ _ hd hb c hc
+      omega
+  · simp
+
+theorem accFlat_bPiece_props (dim : Nat) (hd : 0 < dim) (gs : List G) (off : Nat)
+    (h : ∀ g ∈ gs, g.bfaces.Nodup ∧ ∀ b ∈ g.bfaces, b < g.faces) :
+    (accFlat (fun g => dim * g.faces) (bPiece dim) off gs).Nodup ∧
+      ∀ x ∈ accFlat (fun g => dim * g.faces) (bPiece dim) off gs,
+        off ≤ x ∧ x < off + dim * sumMap G.faces gs := by
+  induction gs generalizing off with
+  | nil => simp [accFlat]
+  | cons g gs ih =>
+    obtain ⟨hn1, hr1⟩ := bPiece_props dim hd off g (h g (by simp)).1 (h g (by simp)).2
+    obtain ⟨hn2, hr2⟩ := ih (off + dim * g.faces) (fun g' hg' => h g' (List.mem_cons_of_mem _ hg'))
+    simp only [accFlat, sumMap]
+    constructor
+    · rw [List.nodup_append]
+      refine ⟨hn1, hn2, ?_⟩
+      intro a ha b hb hab
+      have := hr1 a ha
+      have := hr2 b hb
+      omega
+    · intro x hx
+      rw [Nat.mul_add]
+      rcases List.mem_append.mp hx with hx | hx
+      · have := hr1 x hx; omega
+      · have := hr2 x hx; omega
+
+/-! ### the triplet matrices act on vectors as the index maps say -/
+
+theorem scatterAt_nil (g : Nat) (idx : List Nat) : scatterAt g idx [] = 0 := by
+  cases idx <;> rfl
+
+theorem rowDot_colTrips (g : Nat) (w : List Rat) (j : Nat) (idx : List Nat) :
+    rowDot g w (colTrips j idx) = scatterAt g idx (w.drop j) := by
+  induction idx generalizing j with
+  | nil => cases h : w.drop j <;> rfl
+  | cons i is ih =>
+    simp only [colTrips, rowDot, ih]
+    by_cases hj : j < w.length
+    · rw [List.drop_eq_getElem_cons hj]
+      simp [scatterAt, List.getD_eq_getElem?_getD, List.getElem?_eq_getElem hj]
+    · have h1 : w.drop j = [] := List.drop_eq_nil_of_le (by omega)
+      have h2 : w.drop (j + 1) = [] := List.drop_eq_nil_of_le (by omega)
+      have h3 : w.getD j 0 = 0 := by
+        simp [List.getD_eq_getElem?_getD, List.getElem?_eq_none (show w.length ≤ j by omega)]
+      rw [h1, h2, h3, scatterAt_nil, scatterAt_nil]
+      simp
+
+theorem prolongMat_apply (n : Nat) (idx : List Nat) (w : List Rat) :
+    (prolongMat n idx).apply w = prolongV n idx w := by
+  simp [prolongMat, Mat.apply, prolongV, rowDot_colTrips]
+
+theorem rowDot_swap_lt (r : Nat) (v : List Rat) (j : Nat) (idx : List Nat) (h : r < j) :
+    rowDot r v ((colTrips j idx).map (fun t => (t.2.1, t.1, t.2.2))) = 0 := by
+  induction idx generalizing j with
+  | nil => rfl
+  | cons i is ih =>
+    have hne : ¬ j = r := by omega
+    simp [colTrips, rowDot, hne, ih (j + 1) (by omega)]
+
+theorem map_rowDot_swap (v : List Rat) (j : Nat) (idx : List Nat) :
+    (List.range' j idx.length).map (fun r => rowDot r v ((colTrips j idx).map (fun t => (t.2.1, t.1, t.2.2)))) =
+      idx.map (fun g => v.getD g 0) := by
+  induction idx generalizing j with
+  | nil => rfl
+  | cons i is ih =>
+    rw [List.length_cons, List.range'_succ, List.map_cons, List.map_cons]
+    congr 1
+    · simp [colTrips, rowDot, rowDot_swap_lt j v (j + 1) is (by omega)]
+    · rw [← ih (j + 1)]
+      apply List.map_congr_left
+      intro r hr
+      have : j + 1 ≤ r := (List.mem_range'_1.mp hr).1
+      have hne : ¬ j = r := by omega
+      simp [colTrips, rowDot, hne]
+
+theorem restrictMat_apply (n : Nat) (idx : List Nat) (v : List Rat) :
+    (restrictMat n idx).apply v = restrictV idx v := by
+  have := map_rowDot_swap v 0 idx
+  rw [← List.range_eq_range'] at this
+  simpa [restrictMat, prolongMat, Mat.transpose, Mat.apply, restrictV] using this
+
+/-! ### index map of a selection -/
+
+theorem subIdx_blocks (ss : List Nat) (sel : List Nat) (hlt : ∀ i ∈ sel, i < ss.length) :
+    subIdx (some (blocks 0 ss)) sel = .ok (sel.flatMap (fun i => (blocks 0 ss).getD i [])) := by
+  have h := select_eq (blocks 0 ss) sel (by simpa [blocks_length] using hlt)
+  simp only [subIdx, liftO, bind, Except.bind, h, pure, Except.pure]
+  rw [List.flatMap_def]
+
+theorem subIdx_keyError (ss : List Nat) (sel : List Nat) (i : Nat) (hi : i ∈ sel) (hge : ss.length ≤ i) :
+    subIdx (some (blocks 0 ss)) sel = .error .keyError := by
+  have h := select_none (blocks 0 ss) sel i hi (by simpa [blocks_length] using hge)
+  simp only [subIdx, liftO, bind, Except.bind, h]
+
+theorem flatMap_getElem? {α β : Type} (f : α → List β) (l : List α) (k t : Nat) (hk : k < l.length)
+    (ht : t < (f l[k]).length) :
+    (l.flatMap f)[sumMap (fun a => (f a).length) (l.take k) + t]? = (f l[k])[t]? := by
+  induction l generalizing k with
+  | nil => simp at hk
+  | cons a l ih =>
+    cases k with
+    | zero =>
+      simp only [List.take_zero, sumMap, Nat.zero_add, List.flatMap_cons, List.getElem_cons_zero] at ht ⊢
+      rw [List.getElem?_append_left ht]
+    | succ k =>
+      simp only [List.take_succ_cons, sumMap, List.flatMap_cons, List.getElem_cons_succ] at ht ⊢
+      rw [List.getElem?_append_right (by omega)]
+      have : (f a).length + sumMap (fun a => (f a).length) (List.take k l) + t - (f a).length =
+          sumMap (fun a => (f a).length) (List.take k l) + t := by omega
+      rw [this]
+      exact ih k (by simpa using hk) ht
 
 end PorepyVerif.C27
